@@ -73,3 +73,17 @@ void jcsa_use_object_ranges(const std::vector<std::pair<std::string, jsoncons::o
     o.merge(o2); o.merge_or_update(o2);
     j.merge(j); j.merge_or_update(j);
 }
+
+// arbitrary-precision integer: every member (arithmetic, shifts, conversions)
+namespace jsoncons { template class basic_bigint<std::allocator<uint64_t>>; }
+void jcsa_use_bigint(const std::string& s, std::string& out)
+{
+    using namespace jsoncons;
+    bigint a(s.data(), s.size()), b(7);
+    a += b; a -= b; a *= b; a /= b; a %= b; a <<= 70; a >>= 3; a |= b; a &= b; a ^= b;
+    a *= int64_t(3); a *= uint64_t(3); a /= int64_t(3);
+    out = a.to_string(); out = a.to_string_hex();
+    (void)(a < b); (void)(a == b); (void)static_cast<double>(a); (void)static_cast<int64_t>(a);
+    bigint c = -a; c = a + b; c = a - b; c = a * b; c = a / b; c = a % b;
+    bigint q, r; a.divide(b, q, r, true);
+}
